@@ -42,7 +42,9 @@ SINGLE_KINDS = ["insert_blank", "insert_comment", "trailing_ws", "trailing_ff", 
 MIXED_KINDS = ["insert_blank", "insert_blank", "insert_comment", "insert_comment", "trailing_ws", "reindent", "to_crlf", "append_code"]
 # rules that are documented to look at identifiers or at the program text itself: no renaming case is judged for them
 NAME_SENSITIVE = ("dry.", "performance.string-concat-loop", "improper-logging.conditional-verbose", "stringly-typed.")
-RENAME_RULES_NOTE = ("renaming applies to Python function-local variables only (fresh identifiers of the same length and letter case) and is "
+RENAME_RULES_NOTE = ("renaming applies to function-local variables (Python: names assigned inside functions; TypeScript / JavaScript: const / let / var "
+                     "declarators inside functions; Rust: `let` bindings) - never parameters, module-level names, properties, shorthand fields - to fresh "
+                     "identifiers of the same length and letter-case pattern; the renamed file must parse to the same tree up to the renaming; it is "
                      "judged for: nesting, magic-numbers, srp, improper-logging.print-statement, collection-pipeline, stateless-class, "
                      "method-property, lbyl, cqs, performance.regex-in-loop, lazy-ignores, file-header, file-placement; NOT for dry (hashes the "
                      "text), performance.string-concat-loop and improper-logging.conditional-verbose (documented name lists), stringly-typed "
@@ -184,6 +186,30 @@ def deviations(exp, got, langs, skip_rules=(), compare_msg=True, alt_exp=None):
     return out
 
 
+DRY_COUNT_RE = re.compile(r"^(Duplicate code \()(\d+)( lines)")
+
+
+def dry_span_counts(a, sl):
+    """the DRY violations the stage-B theorem (Proofs/EditDryB.v dry_model_insert / vshift_count) predicts: same blocks, same
+    places, same references, and the reported size = new last line - new first line + 1 of the block.  `a` holds the expected
+    violations with positions and references already shifted but the OLD size; the old first line is recovered through the
+    (strictly monotone) shift"""
+    out = []
+    for rule, fn, line, col, msg in a:
+        m = DRY_COUNT_RE.match(msg)
+        if not m:
+            out.append([rule, fn, line, col, msg])
+            continue
+        n = int(m.group(2))
+        old = next((v for v in range(1, line + 1) if sl(v) == line), None)
+        if old is None:
+            out.append([rule, fn, line, col, msg])
+            continue
+        new_n = sl(old + n - 1) - line + 1
+        out.append([rule, fn, line, col, DRY_COUNT_RE.sub(lambda mm: mm.group(1) + str(new_n) + mm.group(3), msg, count=1)])
+    return out
+
+
 def _lint_plans(prog, plans):
     return lint([(f["name"], pl.data()) for f, pl in zip(prog["files"], plans)], prog["config"])
 
@@ -248,7 +274,13 @@ def _run_obs(job):
         exp = expected_after(prev_res["v"], names, shifters)
         alt = expected_after(prev_res["v"], names, shifters, shift_cols=False) if kind == "reindent" else None
         skip = tuple(hdr_skip + (list(NAME_SENSITIVE) if renamed else []))
-        return deviations(exp, cur_res["v"], langs, skip, compare_msg=not renamed, alt_exp=alt)
+        devs = deviations(exp, cur_res["v"], langs, skip, compare_msg=not renamed, alt_exp=alt)
+        for (rule, fn), (cls, a, b) in list(devs.items()):
+            if rule == "dry.duplicate-code" and cls == "message" and fn in shifters:
+                pred = dry_span_counts(a, shifters[fn][0])
+                if sorted([x[2], x[3], norm_ws(x[4])] for x in pred) == sorted([x[2], x[3], norm_ws(x[4])] for x in b):
+                    devs[(rule, fn)] = ("span-count", a, b)
+        return devs
 
     # the byte-order mark goes last: its effect is tied to line 1 and must not be mixed up with insertions above line 1
     kinds = sorted({k for pl in plans for k in pl.kinds()}, key=lambda k: (k in ("add_bom", "drop_bom"), k))
@@ -564,9 +596,8 @@ def plan_sets(prog, infos, r, n_sets: int, kind_cycle: list[str]):
         tag = f"{abs(hash((prog['id'], s))) % 9973}"
         if mixed:
             kinds = list(MIXED_KINDS)
-            if any(i.lang == "py" for i in infos):
-                kinds.append("rename_locals")
-            else:
+            kinds.append("rename_locals")
+            if not any(i.lang == "py" for i in infos):
                 kinds.append("add_bom")
             label = "mixed"
         else:
@@ -713,6 +744,11 @@ def run_gap_sweep(job):
                 below = op[1] >= max(info.header_end, 1)
                 exp = expected_after(base_v, [f["name"]], {f["name"]: pl.shifter()})
                 devs = deviations(exp, got, {f["name"]: f["lang"]}, () if below else tuple(E.HEADER_SENSITIVE))
+                for (rule, fn), (cls, a, b) in list(devs.items()):
+                    if rule == "dry.duplicate-code" and cls == "message":
+                        pred = dry_span_counts(a, pl.shifter()[0])
+                        if sorted([x[2], x[3], norm_ws(x[4])] for x in pred) == sorted([x[2], x[3], norm_ws(x[4])] for x in b):
+                            devs[(rule, fn)] = ("span-count", a, b)
                 for (rule, fn), (cls, a, b) in devs.items():
                     kind = pl.kinds()[0]
                     rk, ck = explain(rule, fn, cls, a, b, kind, f["lang"], pl)
@@ -888,11 +924,22 @@ def run(tier: str, seed: int, replay: str | None = None) -> int:
                 chk.violation({"reason": f"a DRY block filter decides differently on the same block after a meaning-preserving edit: {key} is not a listed deviation", **case})
     verdicts = [None] * len(units)
     if units:
-        with scratch_dir("tv-c13-coq-") as wd:
-            try:
-                verdicts = judge_units([(uj["lang"], u) for uj, u in units], wd)
-            except RuntimeError as e:
-                chk.broken.append(f"Model:evaluation of the edit model failed ({str(e)[:400]})")
+        err = None
+        for attempt in range(4):
+            with scratch_dir("tv-c13-coq-") as wd:
+                try:
+                    verdicts = judge_units([(uj["lang"], u) for uj, u in units], wd)
+                    err = None
+                    break
+                except RuntimeError as e:
+                    err = str(e)
+            if "inconsistent assumptions" not in err:
+                break
+            # another check rebuilt a shared generated library between our build and the evaluation: rebuild under the lock, retry
+            chk.notes.append("evaluation retried: a shared library was rebuilt by a concurrent check during the evaluation")
+            coq.regen_and_build(["theories/Props/C13.v"])
+        if err is not None:
+            chk.broken.append(f"Model:evaluation of the edit model failed ({err[:400]})")
     cands_all = [True] * N_CANDS
     for (uj, u), ver in zip(units, verdicts):
         chk.dist("unit:case")
